@@ -110,6 +110,20 @@ class Tax(object):
                 parent[(lv, n)] = p
         return Tax(hier, nodes, parent, self.name_mapper, self.hierarchy_mapper)
 
+    def truncate(self, new_hierarchy):
+        """the taxonomy restricted to a sub-sequence of its levels (the leaf level may go as well: its parents
+        become the leaves)"""
+        t = self
+        while t.leaf_level not in new_hierarchy:
+            lf = t.leaf_level
+            hier = t.hierarchy[:-1]
+            t = Tax(hier, {lv: list(t.nodes[lv]) for lv in hier},
+                    {k: v for k, v in t.parent.items() if k[0] != lf}, t.name_mapper, t.hierarchy_mapper)
+        for lv in list(t.hierarchy):
+            if lv not in new_hierarchy:
+                t = t.drop_level(lv)
+        return t
+
     def flatten(self):
         lv = self.leaf_level
         return Tax([lv], {lv: list(self.nodes[lv])}, {}, self.name_mapper, self.hierarchy_mapper)
